@@ -71,44 +71,53 @@ func rulesC20(c *Ctx) {
 		mes := c.P.LookupType(pM, "MemoryEventStore")
 		dlT := c.P.LookupType(pM, "dataList")
 		c.Need(mes != nil && dlT != nil, "MemoryEventStore / dataList")
-		var deep func(t types.Type, d int) bool
-		deep = func(t types.Type, d int) bool {
-			if d > 6 {
-				return false
+		// minMaps: does t reach a dataList (through pointers, slices, maps and the structs of this package), and through how
+		// many string-keyed maps at least
+		var minMaps func(t types.Type, d int) (bool, int)
+		minMaps = func(t types.Type, d int) (bool, int) {
+			if d > 8 {
+				return false, 0
 			}
 			switch x := t.(type) {
 			case *types.Named:
-				return x.Obj() == dlT.Obj()
+				if x.Obj() == dlT.Obj() {
+					return true, 0
+				}
+				if st, ok := x.Underlying().(*types.Struct); ok && x.Obj().Pkg() == dlT.Obj().Pkg() {
+					reach, best := false, 0
+					for i := 0; i < st.NumFields(); i++ {
+						if r, k := minMaps(st.Field(i).Type(), d+1); r && (!reach || k < best) {
+							reach, best = true, k
+						}
+					}
+					return reach, best
+				}
 			case *types.Pointer:
-				return deep(x.Elem(), d+1)
+				return minMaps(x.Elem(), d+1)
 			case *types.Slice:
-				return deep(x.Elem(), d+1)
+				return minMaps(x.Elem(), d+1)
 			case *types.Array:
-				return deep(x.Elem(), d+1)
+				return minMaps(x.Elem(), d+1)
 			case *types.Map:
-				return deep(x.Key(), d+1) || deep(x.Elem(), d+1)
+				r, k := minMaps(x.Elem(), d+1)
+				if b, isB := x.Key().Underlying().(*types.Basic); r && isB && b.Kind() == types.String {
+					return true, k + 1
+				}
+				return r, k
 			case *types.Alias:
-				return deep(types.Unalias(x), d)
+				return minMaps(types.Unalias(x), d)
 			}
-			return false
+			return false, 0
 		}
 		n := 0
 		for _, fld := range structFields(mes) {
-			if !deep(fld.Type(), 0) {
+			reach, k := minMaps(fld.Type(), 0)
+			if !reach {
 				continue
 			}
 			n++
-			m1, ok1 := fld.Type().Underlying().(*types.Map)
-			ok := false
-			if ok1 {
-				if m2, ok2 := m1.Elem().Underlying().(*types.Map); ok2 {
-					_, isStr1 := m1.Key().Underlying().(*types.Basic)
-					_, isStr2 := m2.Key().Underlying().(*types.Basic)
-					ok = isStr1 && isStr2
-				}
-			}
 			c.sites++
-			if ok {
+			if k >= 2 {
 				c.add(c.rule, "list-reference:"+fld.Name(), c.P.Rel(fld.Pos()), vOK, "the session → stream → list table")
 			} else {
 				c.add(c.rule, "list-reference:"+fld.Name(), c.P.Rel(fld.Pos()), vViolation, "MemoryEventStore."+fld.Name()+" holds a list outside the session → stream table: it is not removed by SessionClosed and is not keyed by the session")
@@ -363,7 +372,7 @@ func rulesC20(c *Ctx) {
 	c.Rule("R-C20-3", "After returns exactly the retained suffix after the index, or the purge error; never a partial answer; payloads are copied under the lock and yielded outside it", func() {
 		af := c.Fn(pM, "MemoryEventStore", "After")
 		var cp *Func
-		for _, l := range af.Lits() {
+		for _, l := range af.AllLits() {
 			for _, call := range l.AllCalls(l.Body, false) {
 				if _, ok := l.lockOpOf(call); ok {
 					cp = l
